@@ -24,9 +24,9 @@ fn any_leaf_version() -> LeafVersion {
 }
 
 macro_rules! cb_roundtrip {
-    ($name:ident, $d:expr) => {
+    ($name:ident, $d:expr, $unw:literal) => {
         #[kani::proof]
-        #[kani::unwind(34)]
+        #[kani::unwind($unw)] // loops over the path Vec (heap slices are not constant-bounded for CBMC)
         #[kani::stub(sffi::secp256k1_xonly_pubkey_parse, fm::model_xonly_pubkey_parse)]
         #[kani::stub(sffi::secp256k1_xonly_pubkey_serialize, fm::model_xonly_pubkey_serialize)]
         #[kani::stub(sffi::secp256k1_xonly_pubkey_cmp, fm::model_xonly_pubkey_cmp)]
@@ -76,11 +76,20 @@ macro_rules! cb_roundtrip {
             match ControlBlock::from_slice(&ser) {
                 Ok(c2) => {
                     let c2 = ManuallyDrop::new(c2);
+                    // field-wise equality, byte by byte at a symbolic position (no memcmp loops):
                     assert!(c2.leaf_version == c.leaf_version);
                     assert!(c2.output_key_parity == c.output_key_parity);
-                    assert!(c2.merkle_branch == c.merkle_branch);
-                    assert!(c2.internal_key == c.internal_key);
-                    assert!(*c2 == *c);
+                    assert!(c2.merkle_branch.as_inner().len() == D);
+                    if j >= 33 {
+                        let n2: &[u8] = c2.merkle_branch.as_inner()[(j - 33) / 32].as_ref();
+                        assert!(n2[(j - 33) % 32] == nodes[(j - 33) / 32][(j - 33) % 32]);
+                    }
+                    if fm::seen() {
+                        // equal keys <=> equal serializations (FFI contract); and the derived == agrees
+                        let k2 = c2.internal_key.serialize();
+                        if j >= 1 && j < 33 { assert!(k2[j - 1] == key[j - 1]); }
+                        assert!(c2.internal_key == c.internal_key);
+                    }
                     assert!(c2.size() == L);
                     kani::cover!(odd);
                     kani::cover!(!odd && c.leaf_version.as_u8() == 0xc4);
@@ -92,13 +101,13 @@ macro_rules! cb_roundtrip {
 }
 //@ harness: control_block_roundtrip_d0 class=F tier=quick
 //@ clause: every control block of depth 0 (any valid leaf version, parity, accepted internal key): size() == 33, serialize()/encode() write exactly `version|parity, key` (33 bytes, reported length equal), from_slice(serialize(c)) == c
-cb_roundtrip!(control_block_roundtrip_d0, 0);
+cb_roundtrip!(control_block_roundtrip_d0, 0, 3);
 //@ harness: control_block_roundtrip_d1 class=F tier=quick
 //@ clause: same at depth 1: size() == 65, the path node follows the key verbatim, round trip exact
-cb_roundtrip!(control_block_roundtrip_d1, 1);
+cb_roundtrip!(control_block_roundtrip_d1, 1, 4);
 //@ harness: control_block_roundtrip_d2 class=F tier=quick
 //@ clause: same at depth 2: size() == 97, path nodes in order, round trip exact
-cb_roundtrip!(control_block_roundtrip_d2, 2);
+cb_roundtrip!(control_block_roundtrip_d2, 2, 5);
 //@ harness: control_block_roundtrip_d3 class=F tier=thorough
 //@ clause: same at depth 3: size() == 129
-cb_roundtrip!(control_block_roundtrip_d3, 3);
+cb_roundtrip!(control_block_roundtrip_d3, 3, 6);
